@@ -275,7 +275,7 @@ func (g *Gen) blockAtRule(depth int) string {
 func (g *Gen) statementAtRule() string {
 	switch g.r.Intn(6) {
 	case 0:
-		return "@import " + g.pick("url(foo.css)", "url( foo.css )", "url(\"foo.css\")", "url('a b.css')", "\"foo.css\"", "'foo.css'", "url(http://example.com/very/long/path/style.css)", "URL(foo-bar-baz.css)", "url(a\\)b.css)", "url(\"a\\\"b.css\")") + g.pick("", "", " screen", " print, screen", " screen and (orientation:landscape)", " supports(display:grid) screen", " layer(base)") + g.osp() + ";"
+		return "@import " + g.pick("url(foo.css)", "url( foo.css )", "url( \"foo.css\" )", "url( 'foo.css' )", "url(x)", "url( y )", "url()", "url(\"foo.css\")", "url('a b.css')", "\"foo.css\"", "'foo.css'", "url(http://example.com/very/long/path/style.css)", "URL(foo-bar-baz.css)", "url(a\\)b.css)", "url(\"a\\\"b.css\")") + g.pick("", "", " screen", " print, screen", " screen and (orientation:landscape)", " supports(display:grid) screen", " layer(base)") + g.osp() + ";"
 	case 1:
 		return "@namespace " + g.pick("svg url(http://www.w3.org/2000/svg)", "\"http://www.w3.org/1999/xhtml\"", "Foo \"urn:x\"") + ";"
 	case 2:
